@@ -1,6 +1,9 @@
 package verifsim
 
-import "fmt"
+import (
+	"encoding/base64"
+	"fmt"
+)
 
 // Generate builds the scenario for (profile, seed, tier). Pure function of its arguments.
 func Generate(profile string, seed uint64, tier string) (*Scenario, error) {
@@ -96,6 +99,9 @@ func Generate(profile string, seed uint64, tier string) (*Scenario, error) {
 	case "C08":
 		sc.Property = "C08"
 		genC08(g, sc, tier)
+	case "C10":
+		sc.Property = "C10"
+		genC10(g, sc, tier, seed)
 	case "C20":
 		sc.Property = "C20"
 		c := g.baseStoreCfg(tier)
@@ -387,7 +393,7 @@ func Execute(sc *Scenario) *Verdict {
 	switch sc.Profile {
 	case "C01", "C02", "C03", "C06", "C12":
 		return RunStoreScenario(sc)
-	case "C08":
+	case "C08", "C10":
 		return RunJobScenario(sc)
 	case "C05", "C02c", "C12c", "C13c", "C19c":
 		return RunConcScenario(sc)
@@ -837,4 +843,70 @@ func genC08(g *G, sc *Scenario, tier string) {
 			sc.Ops[len(sc.Ops)-1].N = 1
 		}
 	}
+}
+
+func jsTransform(variant string) string {
+	body := "out.push(e);"
+	switch variant {
+	case "drop":
+		body = "if (GetProperty(e, s, \"drop\", false) === true) { continue; } out.push(e);"
+	case "duplicate":
+		body = "out.push(e); var d = NewEntityFrom(e, false, true, true); SetId(d, GetId(e) + \"-dup\"); out.push(d);"
+	case "create":
+		body = "out.push(e); var n = NewEntity(); SetId(n, GetId(e) + \"-new\"); SetProperty(n, s, \"of\", GetId(e)); out.push(n);"
+	}
+	code := "function transform_entities(entities) { var s = GetNamespacePrefix(\"" + ExS + "\"); var out = []; for (var i = 0; i < entities.length; i++) { var e = entities[i]; " + body + " } return out; }"
+	return base64.StdEncoding.EncodeToString([]byte(code))
+}
+
+// genC10 walks the (entity count, batch size, parallelism) box systematically by seed index.
+func genC10(g *G, sc *Scenario, tier string, seed uint64) {
+	idx := int(seed % 10_000_000)
+	count := idx % 15
+	batch := 1 + (idx/15)%7
+	par := 1 + (idx/105)%8
+	k := idx / 840
+	variants := []string{"identity", "drop", "duplicate", "create"}
+	variant := variants[k%4]
+	jobType := []string{"incremental", "fullsync"}[(k/4)%2]
+	if k >= 8 {
+		// beyond the systematic box: sampled larger values
+		count = g.Range(15, 200)
+		batch = g.Range(1, 60)
+		par = g.Range(1, 16)
+	}
+	sc.Datasets = []string{"srcA", "sink"}
+	cfg := jobConfig("job1", map[string]any{"Type": "DatasetSource", "Name": "srcA"}, map[string]any{"Type": "DatasetSink", "Name": "sink"},
+		map[string]any{"Type": "JavascriptTransform", "Code": jsTransform(variant), "Parallelism": par}, jobType, batch)
+	cfg["_variant"], cfg["_parallelism"] = variant, par
+	sc.Ops = append(sc.Ops, Op{K: "addJob", M: cfg})
+	mk := func(i int) Ent {
+		e := Ent{"id": fmt.Sprintf("%sx%03d", MkE, i), "props": map[string]any{MkS + "n": float64(i)}, "refs": map[string]any{}}
+		if g.P(0.3) {
+			e["props"].(map[string]any)[MkS+"drop"] = true
+		}
+		return e
+	}
+	// the source entities arrive in 1-3 writes, the job runs after each
+	left := count
+	i := 0
+	rounds := g.Range(1, 2)
+	for rd := 0; rd < rounds; rd++ {
+		n := left
+		if rd < rounds-1 {
+			n = g.Intn(left + 1)
+		}
+		var ents []Ent
+		for ; n > 0; n-- {
+			ents = append(ents, mk(i))
+			i++
+			left--
+		}
+		if len(ents) > 0 {
+			// store in chunks so that a source write is not limited by anything
+			sc.Ops = append(sc.Ops, Op{K: "batch", DS: "srcA", Ents: ents})
+		}
+		sc.Ops = append(sc.Ops, Op{K: "run", S: "job1", DS: jobType, N: 1})
+	}
+	sc.Note = fmt.Sprintf("cell count=%d batch=%d parallelism=%d %s %s", count, batch, par, jobType, variant)
 }
